@@ -1012,10 +1012,10 @@ Proof. cbv zeta. eexists. split; [vm_compute; reflexivity|]. split; vm_compute; 
 
 (* ------------------------------------------------------------------ cp_norm on complex CP tensors (Proofs26) *)
 (* cj : a conjugation = a ring homomorphism of the carrier (complex conjugation; the identity on a real carrier).  cp_norm multiplies the
-   Gram matrices A_k^T conj(A_k) entrywise and then by w_r * w_s.  With the second weight conjugated (cp_normsq_conj .. true: the candidate
-   repair build/fix_candidates/C03_cp_norm_complex_weights) the number is the sum over all entries of entry * cj(entry) -- |entry|^2 --
-   for every order, rank and weights; the code as it is (.. false) agrees whenever the weights are self-conjugate (real weights,
-   weights=None, any factors) -- and is refuted for the weight i: a GENUINE DEFECT, known finding cp_norm_complex_weights *)
+   Gram matrices A_k^T conj(A_k) entrywise and then by w_r * conj(w_s) (cp_normsq_conj .. true: the code since /repo 20cafdc): the number
+   is the sum over all entries of entry * cj(entry) -- |entry|^2 -- for every order, rank and weights, complex factors AND weights.
+   Before 20cafdc the second weight was not conjugated (cp_normsq_conj .. false): a genuine defect found by this check (round 7),
+   kept as the Example C03_before_20cafdc_cp_norm_complex_weights. *)
 Definition is_conj {F : Type} (Op : fops F) (cj : F -> F) : Prop :=
   cj (f0 Op) = f0 Op /\ cj (f1 Op) = f1 Op /\ (forall a b, cj (fadd Op a b) = fadd Op (cj a) (cj b)) /\ (forall a b, cj (fmul Op a b) = fmul Op (cj a) (cj b)).
 Theorem C03_cp_normsq_conj : forall (F : Type) (Op : fops F), is_ring Op -> forall cj : F -> F, is_conj Op cj ->
@@ -1025,22 +1025,23 @@ Theorem C03_cp_normsq_conj : forall (F : Type) (Op : fops F), is_ring Op -> fora
   Ok (sum_idx F (f0 Op) (fadd Op) shp (fun idx => fmul Op (cp_entry F Op w fs R idx) (cj (cp_entry F Op w fs R idx)))).
 Proof. intros F Op Rth cj (H0 & H1 & Ha & Hm). exact (cp_normsq_conj_spec F Op Rth cj H0 H1 Ha Hm). Qed.
 Print Assumptions C03_cp_normsq_conj.
-Theorem C03_cp_normsq_as_written_partial : forall (F : Type) (Op : fops F) (cj : F -> F) (w : option (tensor F)) (fs : list (tensor F)),
+(* the repair changed nothing for self-conjugate weights (real weights, weights=None; any complex factors) *)
+Theorem C03_cp_normsq_unconjugated_weights_eq : forall (F : Type) (Op : fops F) (cj : F -> F) (w : option (tensor F)) (fs : list (tensor F)),
   (forall s, cj (wv Op w s) = wv Op w s) -> cp_normsq_conj Op cj false w fs = cp_normsq_conj Op cj true w fs.
 Proof. exact cp_normsq_as_written_partial. Qed.
-Print Assumptions C03_cp_normsq_as_written_partial.
+Print Assumptions C03_cp_normsq_unconjugated_weights_eq.
 (* on a carrier without conjugation both are the real model cp_normsq of C03_cp_normsq *)
 Theorem C03_cp_normsq_conj_id : forall (F : Type) (Op : fops F) (b : bool) (w : option (tensor F)) (fs : list (tensor F)),
   cp_normsq_conj Op (fun x => x) b w fs = cp_normsq Op w fs.
 Proof. exact @cp_normsq_conj_id. Qed.
 Print Assumptions C03_cp_normsq_conj_id.
-Theorem C03_cp_norm_complex_weights_refuted :
+(* the former witness: weight i, factor [1]: the vector [i] of squared norm 1; the un-conjugated formula gave i * i = -1 (cp_norm = 1j) *)
+Example C03_before_20cafdc_cp_norm_complex_weights :
   exists (w : tensor Tenalg.GI) (fs : list (tensor Tenalg.GI)) t,
     cp_to_tensor GIops (Some w) fs None = Ok t /\ data t = [(0, 1)%Z] /\
     cp_normsq_conj GIops gconj false (Some w) fs = Ok (-1, 0)%Z /\
     cp_normsq_conj GIops gconj true (Some w) fs = Ok (1, 0)%Z.
 Proof. exact cp_norm_complex_weights_refuted. Qed.
-Print Assumptions C03_cp_norm_complex_weights_refuted.
 (* the hypotheses are satisfiable: the Gaussian integers with complex conjugation (the carrier of the complex correspondence cases) *)
 Example C03_is_ring_conj_GI : is_ring GIops /\ is_conj GIops gconj.
 Proof. split; [exact GI_ring | exact gconj_hom]. Qed.
